@@ -70,7 +70,7 @@ pub fn check(case: &Case, obs: &mut Obs) -> Verdict {
     if cols == 0 {
         return Verdict::Skipped("zero columns (documented panic)");
     }
-    let rows = textwrap::wrap_columns(text, cols, o.build(), left, mid, right);
+    let rows = o.wrap_columns(text, cols, left, mid, right);
     obs.calls += 1;
     if obs.want_sample {
         obs.out = Some(strs_json(&rows));
@@ -79,7 +79,8 @@ pub fn check(case: &Case, obs: &mut Obs) -> Verdict {
     let cw = std::cmp::max(inner / cols, 1);
     let mut oc = o.clone();
     oc.width = cw;
-    let lines = textwrap::wrap(text, oc.build());
+    let built = oc.build();
+    let lines = if oc.by_ref(text) { textwrap::wrap(text, &built) } else { textwrap::wrap(text, oc.build()) };
     obs.calls += 1;
     let nrows = (lines.len() + cols - 1) / cols;
     if rows.len() != nrows {
